@@ -128,7 +128,7 @@ pub fn op_construct<K: Kern<D>, const D: usize>(
     let in_args: Vec<Value> = input.iter().map(|v| v.args(tr)).collect();
     let g_eff = if ctor == Ctor::WithKernel { TopologyGuarantee::DEFAULT } else { g };
     let args = json!({"D": D, "kernel": K::NAME, "profile": profile(), "ctor": format!("{ctor:?}"),
-        "g": format!("{g_eff:?}"), "opts": opts.name(), "input": in_args});
+        "g": format!("{g_eff:?}"), "opts": opts.name(), "input": in_args, "L": Vec::<i64>::new()});
     let r = tr.guard("construct", || -> Result<(Dt<K, D>, i64, i64), String> {
         match ctor {
             Ctor::WithKernel => Dt::<K, D>::with_kernel(&kernel, &vs).map(|d| (d, -1, -1)).map_err(|e| variant_path(&e)),
@@ -464,6 +464,48 @@ pub fn op_set_policy<K: Kern<D>, const D: usize>(tr: &mut Tracer, obj: usize, dt
         Guarded::Panicked(msg) => {
             tr.emit("SetPolicy", obj, args, json!({"kind":"Panic","msg":msg}), None, true);
             false
+        }
+    }
+}
+
+/// C16: builder with a toroidal domain. `lm` = periods in lattice units; `periodic` selects the
+/// image-point (true quotient) mode.
+pub fn op_construct_toroidal<K: Kern<D>, const D: usize>(
+    tr: &mut Tracer,
+    obj: usize,
+    g: TopologyGuarantee,
+    lm: &[i64],
+    periodic: bool,
+    input: &[VIn],
+) -> Option<Dt<K, D>> {
+    let s = tr.s;
+    let vs: Vec<Vertex<f64, VData, D>> = input.iter().map(|v| v.vertex::<D>(s)).collect();
+    let kernel = K::default();
+    let mut domain = [0f64; D];
+    for j in 0..D {
+        domain[j] = lm[j] as f64 * pow2(s);
+    }
+    let in_args: Vec<Value> = input.iter().map(|v| v.args(tr)).collect();
+    let args = json!({"D": D, "kernel": K::NAME, "profile": profile(), "ctor": if periodic { "ToroidalPeriodic" } else { "Toroidal" },
+        "g": format!("{g:?}"), "opts": "default", "input": in_args, "L": lm});
+    let r = tr.guard("construct_toroidal", || {
+        let b = delaunay::core::builder::DelaunayTriangulationBuilder::from_vertices(&vs).topology_guarantee(g);
+        let b = if periodic { b.toroidal_periodic(domain) } else { b.toroidal(domain) };
+        b.build_with_kernel::<K, CData>(&kernel).map_err(|e| variant_path(&e))
+    });
+    match r {
+        Guarded::Done(Ok(dt)) => {
+            let post = tr.project(&dt);
+            tr.emit("Construct", obj, args, json!({"kind":"Ok","inserted":-1,"skipped":-1}), Some(post), false);
+            Some(dt)
+        }
+        Guarded::Done(Err(e)) => {
+            tr.emit("Construct", obj, args, json!({"kind":"Err","err":e,"inserted":-1,"skipped":-1}), Some(dead_state()), false);
+            None
+        }
+        Guarded::Panicked(msg) => {
+            tr.emit("Construct", obj, args, json!({"kind":"Panic","msg":msg}), Some(dead_state()), true);
+            None
         }
     }
 }
